@@ -249,8 +249,8 @@ impl Check for C05 {
     }
     fn runs(&self, tier: Tier) -> u64 {
         match tier {
-            Tier::Quick => 6000,
-            Tier::Thorough => 400_000,
+            Tier::Quick => 40_000,
+            Tier::Thorough => 2_000_000,
         }
     }
     fn rule(&self) -> String {
